@@ -106,7 +106,7 @@ def pool_strategy(draw):
 
 def hyp(acc, n, seed, tier):
     mod = sys.modules[MOD]
-    harness.run_hypothesis(acc, pool_strategy(), lambda c: harness.process(mod, acc, "markerpool", c, "marker-hyp-pools", timeout_s=6.0 if tier == "quick" else 20.0), n, seed)
+    harness.run_hypothesis(acc, pool_strategy(), lambda c: harness.process(mod, acc, "markerpool", c, "marker-hyp-pools", timeout_s=4.0 if tier == "quick" else 8.0), n, seed)
 
 
 def _mirror(expr, how):
